@@ -137,7 +137,7 @@ Lemma do_req_inv : forall lwork r u, req_ok r -> ust_inv lwork u -> ust_inv lwor
 Proof.
   intros lwork r u Hr (Hs & Hh & Ht).
   destruct Hs as (Hsz & H1 & H12 & H2 & Hu).
-  destruct r as [bytes e | e | ]; simpl in *.
+  destruct r as [bytes e | e | | ]; simpl in *.
   - destruct (user_malloc bytes e (u_stack u)) as [[off|] s'] eqn:E.
     + apply user_malloc_granted in E. destruct E as [Hf E]. unfold stack_full in Hf.
       apply Z.leb_gt in Hf.
@@ -159,7 +159,8 @@ Proof.
         destruct Hc as (? & ? & Hc). specialize (IH _ _ Hc). lia. }
       unfold ust_inv, stack_inv; simpl; repeat split; try lia; auto.
       replace (s_top2 (u_stack u) + b) with (off + b) by lia. assumption.
-  - unfold ust_inv, stack_inv, work_free_stack; simpl; repeat split; try lia; auto.
+  - unfold ust_inv, stack_inv; auto 10.
+  - unfold ust_inv, stack_inv, tail_reclaim_stack; simpl; repeat split; try lia; auto.
 Qed.
 
 Lemma init_ust_inv : forall lwork, 0 < lwork -> ust_inv lwork (init_ust lwork).
@@ -243,7 +244,7 @@ Qed.
 
 (* non-vacuity: a disciplined sequence that really allocates on both ends, is refused once and frees *)
 Example ustack_safe_nonvacuous :
-  let u := run_reqs [RMalloc 100 HEAD; RMalloc 200 TAIL; RMalloc 700 HEAD; RMalloc 699 HEAD; RFreeLast HEAD; RWorkFree]
+  let u := run_reqs [RMalloc 100 HEAD; RMalloc 200 TAIL; RMalloc 700 HEAD; RMalloc 699 HEAD; RFreeLast HEAD; RReclaim]
                     (init_ust 1000) in
   u_head u = [(0, 100)] /\ u_tail u = [] /\ u_stack u = mkStack 1000 100 100 1000.
 Proof. vm_compute. auto. Qed.
@@ -996,13 +997,15 @@ Lemma workinit_race_overlap_lemma :
     ts = [TReady 9884 9808; TReady 9692 9616] /\ pairwise_disjointb (live_blocks small_cfg 3 1 ts) = false.
 Proof. exists 10004, [0; 0; 1; 0; 1]%nat. vm_compute. auto. Qed.
 
-(* (d) three threads: thread 1 finishes and WorkFree resets the whole tail while thread 0 still works;
-   thread 2, starting late, is given thread 0's iwork block *)
-Lemma workfree_overlap_lemma :
+(* (d) three threads, thread 1 finishes first and calls WorkFree while thread 0 still works and thread 2 starts late: since
+   fix 'WorkFree keeps the tail' nothing is released, thread 2 gets fresh blocks (this very schedule used to hand thread 0's
+   iwork block to thread 2: findings F17 / C14-workfree, now fixed) *)
+Lemma workfree_keeps_tail_example :
   exists lwork sched,
     let '(ts, s) := run_sched small_cfg 3 1 0 sched [TStart; TStart; TStart] (mkStack lwork 264 264 lwork) in
-    ts = [TReady 9880 9808; TDone; TGotI 9880] /\ pairwise_disjointb (live_blocks small_cfg 3 1 ts) = false.
-Proof. exists 10000, [0; 0; 1; 1; 1; 2]%nat. vm_compute. auto. Qed.
+    nth_error ts 1 = Some TDone /\ (exists iw, nth_error ts 2 = Some (TGotI iw)) /\
+    pairwise_disjointb (live_blocks small_cfg 3 1 ts) = true.
+Proof. exists 10000, [0; 0; 1; 1; 1; 2]%nat. vm_compute. split; [reflexivity|]. split; [eexists; reflexivity|reflexivity]. Qed.
 
 (* (e) MemInit failed (info > n), no L/U was built, and p?gssvx still calls superlu_?QuerySpace(L, U) *)
 Lemma driver_reads_uninit_lemma :
@@ -1188,6 +1191,60 @@ Proof.
   - destruct (Hper i t H) as (_ & Hb & _). rewrite Forall_forall in Hb. specialize (Hb _ H0). unfold block_in in *. lia.
   - intros i iw dw Hi. destruct (Hper i _ Hi) as (_ & _ & Hr). apply Hr. reflexivity.
 Qed.
+
+(* the WHOLE run, WorkFree included: a thread that finishes keeps the stack as it is (its blocks are simply no longer used) *)
+Lemma tinv_done : forall ts s i t, tinv ts s -> nth_error ts i = Some t -> tinv (upd ts i TDone) s.
+Proof.
+  intros ts s i t (Hsz & Ht1 & Ht2 & Hu & Hal & Hper & Hdis) Hi.
+  unfold tinv. repeat (split; [assumption|]). split.
+  - intros j tj Hj. destruct (Nat.eq_dec i j) as [<-|Hne].
+    + rewrite (nth_error_upd_same _ ts i TDone t Hi) in Hj. inversion Hj; subst tj.
+      split; [intros; discriminate|]. split; [constructor|intros; discriminate].
+    + rewrite nth_error_upd_other in Hj by assumption. exact (Hper j tj Hj).
+  - intros j k tj tk bj bk Hjk Hj Hk Hbj Hbk.
+    destruct (Nat.eq_dec i j) as [<-|Hnj].
+    + rewrite (nth_error_upd_same _ ts i TDone t Hi) in Hj. inversion Hj; subst tj. destruct Hbj.
+    + destruct (Nat.eq_dec i k) as [<-|Hnk].
+      * rewrite (nth_error_upd_same _ ts i TDone t Hi) in Hk. inversion Hk; subst tk. destruct Hbk.
+      * rewrite nth_error_upd_other in Hj, Hk by assumption. eapply (Hdis j k); eassumption.
+Qed.
+
+Lemma thread_step_inv : forall ts s i t t' s',
+  tinv ts s -> nth_error ts i = Some t -> thread_step c n w ba t s = (t', s') -> tinv (upd ts i t') s'.
+Proof.
+  intros ts s i t t' s' Hinv Hi Hstep.
+  destruct t as [|iw|iw dw e|iw dw|code|] eqn:Et;
+    try (apply (init_step_inv ts s i t t' s'); [exact Hinv | subst t; exact Hi | subst t; exact Hstep]).
+  cbn [thread_step] in Hstep. unfold work_free_stack in Hstep. inversion Hstep; subst t' s'.
+  eapply tinv_done; eassumption.
+Qed.
+
+Lemma run_sched_inv : forall sched ts s, tinv ts s -> let '(ts', s') := run_sched c n w ba sched ts s in tinv ts' s'.
+Proof.
+  induction sched as [|i rest IH]; intros ts s Hinv; simpl; [assumption|].
+  destruct (nth_error ts i) as [t|] eqn:E; [|apply IH; assumption].
+  destruct (thread_step c n w ba t s) as [t' s'] eqn:Es.
+  apply IH. eapply thread_step_inv; eassumption.
+Qed.
+
+Lemma workfree_threads_lemma : forall P sched,
+  let '(ts, s) := run_sched c n w ba sched (repeat TStart P) (mkStack L T1 T1 L) in
+  (forall i t b, nth_error ts i = Some t -> In b (thread_blocks c n w t) -> block_in T1 L b) /\
+  (forall i j ti tj bi bj, i <> j -> nth_error ts i = Some ti -> nth_error ts j = Some tj ->
+        In bi (thread_blocks c n w ti) -> In bj (thread_blocks c n w tj) -> disjoint bi bj) /\
+  (forall i iw dw, nth_error ts i = Some (TReady iw dw) -> disjoint (iw, work_isize n w) (dw, work_dsize c n w)) /\
+  s_used s = s_top1 s + (s_size s - s_top2 s) /\ s_top1 s = T1 /\ T1 <= s_top2 s <= L.
+Proof.
+  intros P sched.
+  pose proof (run_sched_inv sched _ _ (tinv_start P)) as H.
+  destruct (run_sched c n w ba sched (repeat TStart P) (mkStack L T1 T1 L)) as [ts s].
+  destruct H as (Hsz & Ht1 & Ht2 & Hu & Hal & Hper & Hdis).
+  repeat split; try lia; try assumption.
+  - destruct (Hper i t H) as (_ & Hb & _). rewrite Forall_forall in Hb. specialize (Hb _ H0). unfold block_in in *. lia.
+  - destruct (Hper i t H) as (_ & Hb & _). rewrite Forall_forall in Hb. specialize (Hb _ H0). unfold block_in in *. lia.
+  - intros i iw dw Hi. destruct (Hper i _ Hi) as (_ & _ & Hr). apply Hr. reflexivity.
+Qed.
+
 
 End Threads.
 
